@@ -176,6 +176,7 @@ func exec17(tr *Trace17, probes func(string)) (f *fail17, at int, executed int) 
 	w := &world17{}
 	for i, op := range tr.Ops {
 		var skipped bool
+		enter(op.K+"/hang", tr, fmt.Sprintf("step %d (%s) or the queries after it", i, op.K))
 		f, skipped = w.step(op, probes)
 		if !skipped {
 			executed++
@@ -196,6 +197,7 @@ func exec17(tr *Trace17, probes func(string)) (f *fail17, at int, executed int) 
 				f.detail = fmt.Sprintf("after step %d (%s): %s", i, b, f.detail)
 			}
 		}
+		leave()
 		if f != nil {
 			return f, i, executed
 		}
@@ -891,6 +893,7 @@ func C17() *kit.Spec {
 			return 3 * 48 * 48 * 2 * 3
 		},
 		Run: func(c *kit.Ctx) {
+			watchCtx = c
 			tr := gen17(c)
 			if c.Run < 3 {
 				c.Sample(tr)
@@ -903,6 +906,7 @@ func C17() *kit.Spec {
 				c.Fatal("bad trace: " + err.Error())
 				return
 			}
+			watchCtx = c
 			runTrace17(c, tr, false)
 		},
 		Extra: func(tier string, cov map[string]interface{}) {
